@@ -592,3 +592,129 @@ theorem locRec_eq_evalSel (cfg : Cfg) (rep : Rep)
       rw [ih]
 
 end OjgVerif.JPath
+
+/-! # The machines against their skeletons, every representation -/
+namespace OjgVerif.JPath
+open OjgVerif
+
+/-- `denV_eq_evalSel` for any selection functions whose descent is Get's: the value-level denotation of a
+work-list machine over `L`/`P` is the skeleton over `S`, for paths that do not end in a bare descent (there the
+machines report the node itself, which a `take 1` last selection does not) -/
+theorem denV_eq_evalSel_gen (sib : Bool) (S : Sel) (L P : Frag → JV → List JV)
+    (hsets : S.sets = fun _ => true)
+    (hdesc : ∀ v, S.inner .descent v = nodesInner v)
+    (hL : ∀ f v, isDescent f = false → L f v = (S.last f v).map (·.2))
+    (hP : ∀ f v, isDescent f = false → (P f v).reverse = (S.inner f v).map (·.2)) :
+    ∀ (x : List Frag) (v : JV), endsInDescent x = false → denV sib L P x v = (evalSel S sib x v).map (·.2)
+  | [], v, _ => by simp [denV, evalSel]
+  | [f], v, ht => by
+    have hf : isDescent f = false := by simpa [endsInDescent] using ht
+    rw [denV_single _ _ _ f v hf, hL f v hf]
+    simp [evalSel]
+  | f :: g :: r, v, ht => by
+    have ht1 : endsInDescent (g :: r) = false := by simpa [endsInDescent] using ht
+    have ih1 := fun c => denV_eq_evalSel_gen sib S L P hsets hdesc hL hP (g :: r) c ht1
+    by_cases hf : isDescent f = true
+    · have hfd : f = .descent := by cases f <;> simp_all [isDescent]
+      subst hfd
+      rw [denV_descent_cons, evalSel]
+      simp only [isDescent, Bool.not_true, Bool.and_false, Bool.false_eq_true, ↓reduceIte]
+      rw [hdesc, nodesInnerV]
+      rw [map_snd_flatMap _ _ (denV sib L P (g :: r))]
+      intro m _
+      rw [map_snd_pre, ih1]
+    · have hf' : isDescent f = false := by simpa using hf
+      rw [denV_cons_cons _ _ _ f g r v hf', hP f v hf', evalSel]
+      by_cases hg : isDescent g = true
+      · have hgd : g = .descent := by cases g <;> simp_all [isDescent]
+        subst hgd
+        have hr : r ≠ [] := by
+          intro h; subst h; simp [endsInDescent, isDescent] at ht1
+        have ht2 : endsInDescent r = false := by
+          cases r with
+          | nil => exact absurd rfl hr
+          | cons a b => simpa [endsInDescent] using ht1
+        have ih2 := fun c => denV_eq_evalSel_gen sib S L P hsets hdesc hL hP r c ht2
+        cases sib with
+        | true =>
+          have hcond : (true && isDescent Frag.descent && !isDescent f) = true := by rw [hf']; rfl
+          rw [if_pos hcond, hsets, sibEval_true]
+          simp only [fresh]
+          cases S.inner f v with
+          | nil => simp [sibList]
+          | cons m ms =>
+            simp only [List.map_cons, sibList, ↓reduceIte, List.map_append, map_snd_pre]
+            rw [← ih1 m.2]
+            congr 1
+            rw [map_snd_flatMap _ _ (denV true L P r)]
+            intro a _
+            rw [map_snd_pre, ih2]
+        | false =>
+          simp only [Bool.false_and, Bool.false_eq_true, ↓reduceIte, fresh, sibList_false]
+          rw [map_snd_flatMap _ _ (denV false L P (.descent :: r))]
+          intro m _
+          rw [map_snd_pre, ih1]
+      · have hg' : isDescent g = false := by simpa using hg
+        simp only [hg', Bool.and_false, Bool.false_and, Bool.false_eq_true, ↓reduceIte]
+        have hfresh : fresh sib L P (g :: r) = fun l => l.flatMap (denV sib L P (g :: r)) := by
+          funext l
+          cases g with
+          | descent => simp [isDescent] at hg'
+          | _ => simp [fresh]
+        rw [hfresh]
+        simp only
+        rw [map_snd_flatMap _ _ (denV sib L P (g :: r))]
+        intro m _
+        rw [map_snd_pre, ih1]
+
+/-- what FirstFound's last-fragment branches would append if they did not return -/
+def First.lastV (cfg : Cfg) (rep : Rep) (f : Frag) (v : JV) : List JV := (First.last cfg rep f v).map (·.2)
+
+theorem first_inner_descent (cfg : Cfg) (rep : Rep)
+    (hcut : (cfg.typedMapWild && decide (rep.ok = OKind.rmap)) = false) (v : JV) :
+    First.inner cfg rep .descent v = nodesInner v := by
+  simp [First.inner, Get.push, hcut]
+
+/-- **the FirstFound machine computes the skeleton model `firstM`**: every configuration and representation
+tag (typed maps: with `typedMapWild` off), every tree, every path that does not end in a bare descent -/
+theorem firstMach_eq_firstM (cfg : Cfg) (rep : Rep)
+    (hcut : (cfg.typedMapWild && decide (rep.ok = OKind.rmap)) = false)
+    (x : List Frag) (d : JV) (ht : endsInDescent x = false) :
+    firstMach cfg rep x d = firstM cfg rep x d := by
+  cases x with
+  | nil => simp [firstMach, firstM, evalSel]
+  | cons f r =>
+    simp only [firstMach, firstM]
+    rw [first_run_sim cfg.descentSiblings (First.lastV cfg rep) (First.pushV cfg rep) (f :: r) (First.ret cfg rep)
+      (fun _ _ => rfl) (drop_ne_descent _ ht)]
+    rw [run_eq_denV _ _ _ f r d _ (Nat.le_succ _)]
+    rw [denV_eq_evalSel_gen cfg.descentSiblings (First.sel cfg rep) (First.lastV cfg rep) (First.pushV cfg rep)
+      rfl (first_inner_descent cfg rep hcut) (fun _ _ _ => rfl)
+      (fun f v _ => by simp [First.pushV, First.sel]) (f :: r) d ht]
+
+theorem has_inner_eq_first (cfg : Cfg) (rep : Rep) (hd : cfg.hasTypedDescent = false) (hh : cfg.hasTypedMap = false)
+    (f : Frag) (v : JV) : Has.inner cfg rep f v = First.inner cfg rep f v := by
+  simp [Has.inner, hd, hh]
+
+/-- **the Has machine computes the skeleton model `hasM`**: every configuration with has.go's kind lists
+complete (`hasTypedMap`, `hasTypedDescent` off: since 21977aa), every representation tag, every tree, every
+path that does not end in a bare descent -/
+theorem hasMach_eq_hasM (cfg : Cfg) (rep : Rep) (hd : cfg.hasTypedDescent = false) (hh : cfg.hasTypedMap = false)
+    (hcut : (cfg.typedMapWild && decide (rep.ok = OKind.rmap)) = false)
+    (x : List Frag) (d : JV) (ht : endsInDescent x = false) :
+    hasMach cfg rep x d = hasM cfg rep x d := by
+  have hsets : (Has.sel cfg rep).sets = fun _ => true := by funext v; simp [Has.sel, hd]
+  cases x with
+  | nil => simp [hasMach, hasM, evalSel]
+  | cons f r =>
+    simp only [hasMach, hasM]
+    rw [has_run_sim cfg.descentSiblings (First.lastV cfg rep) (Has.pushV cfg rep) (f :: r) (Has.sel cfg rep).sets
+      (fun v => by rw [hsets]) (Has.ret cfg rep) (fun f v => by simp [Has.ret, First.lastV])
+      (drop_ne_descent _ ht)]
+    rw [run_eq_denV _ _ _ f r d _ (Nat.le_succ _)]
+    rw [denV_eq_evalSel_gen cfg.descentSiblings (Has.sel cfg rep) (First.lastV cfg rep) (Has.pushV cfg rep)
+      hsets (fun v => by simp only [Has.sel]; rw [has_inner_eq_first cfg rep hd hh, first_inner_descent cfg rep hcut])
+      (fun _ _ _ => rfl) (fun f v _ => by simp [Has.pushV, Has.sel]) (f :: r) d ht]
+    simp
+
+end OjgVerif.JPath
